@@ -30,6 +30,9 @@ Modelling decisions (design_notes/C15.md):
 * "disappearing" is modelled as "absent from the next tree".
 * `self._spans[node][T][k] += coverage` and `node_spans[node] += coverage` are modelled by a log of
   entries `(node, T, k, coverage)`; a bucket's value is the sum of its entries.
+* `get_mixture_prior_params`: `paramsOf` is the per-node computation, `mixtureParams` the loop with the
+  `seen_mixtures` cache keyed by `(total_tips, span_arr.tobytes())`; the bytes of the `(uint64, float64)`
+  records are modelled as the list of `(k, span)` pairs (equal bytes = equal pairs for positive spans).
 * A flush set is a set: the loop visits every node once (`visited_nodes`); the model walks the node ids
   `0 … N-1` and flushes those contained in the given list.
 -/
@@ -162,5 +165,49 @@ def mixtureMoments (groups : List (List (α × α × α))) : α × α :=
   (mean, (a.f + a.s) / a.w - mean * mean)
 
 end Mixture
+
+section Params
+variable {α : Type} [Add α] [Sub α] [Mul α] [Div α] [OfNat α 0] [DecidableEq α]
+
+/-- The span table of one node as `get_spans(node)` returns it: per total-tips value `T` the list of
+`(descendant tips k, span)` records. -/
+abbrev NodeRecs (α : Type) := List (Nat × List (Nat × α))
+
+/-- `mixture` → components `(w, m, v)`: `m, v` are the `mean`/`var` columns of `self[T][k]`. -/
+def groupsOf (table : Nat → Nat → α × α) (r : NodeRecs α) : List (List (α × α × α)) :=
+  r.map (fun g => g.2.map (fun c => (c.2, (table g.1 c.1).1, (table g.1 c.1).2)))
+
+/-- What `get_mixture_prior_params` assigns to a node **without** the cache: a function of the node's
+own records (and the coalescent tables) only.  `approx` is `func_approx` (gamma or lognormal moment
+matching); a non-mixture node takes the table row's own parameters `approx (mean, var)`. -/
+def paramsOf (approx : α → α → α × α) (table : Nat → Nat → α × α) (r : NodeRecs α) : α × α :=
+  match r with
+  | [(T, [(k, _)])] => approx (table T k).1 (table T k).2
+  | _ => let mv := mixtureMoments (groupsOf table r); approx mv.1 mv.2
+
+/-- `seen_mixtures`: keys `(total_tips, span_arr.tobytes())`, i.e. `(T, records)`. -/
+abbrev Cache (α : Type) := List ((Nat × List (Nat × α)) × (α × α))
+
+/-- One iteration of the loop over `nodes_to_date`, with the small-mixture cache. -/
+def paramsStep (approx : α → α → α × α) (table : Nat → Nat → α × α)
+    (st : Cache α × List (α × α)) (r : NodeRecs α) : Cache α × List (α × α) :=
+  match r with
+  | [(T, comps)] =>
+    if comps.length = 1 then (st.1, st.2 ++ [paramsOf approx table r])
+    else if comps.length ≤ 5 then
+      match st.1.lookup (T, comps) with
+      | some v => (st.1, st.2 ++ [v])
+      | none =>
+        let v := paramsOf approx table r
+        (((T, comps), v) :: st.1, st.2 ++ [v])
+    else (st.1, st.2 ++ [paramsOf approx table r])
+  | _ => (st.1, st.2 ++ [paramsOf approx table r])
+
+/-- `get_mixture_prior_params`: the parameters of every node, in loop order. -/
+def mixtureParams (approx : α → α → α × α) (table : Nat → Nat → α × α) (nodes : List (NodeRecs α)) :
+    List (α × α) :=
+  (nodes.foldl (paramsStep approx table) ([], [])).2
+
+end Params
 
 end Tsdate.Spans
